@@ -1,28 +1,15 @@
-"""Per-property configuration of ./check.  One entry per claimed property:
-   thm     Lean module holding the property theorems
-   stages  harness binaries to run; each writes cases.txt / impl.out / oracle.jsonl / stats.json
-           and (when `driver` is set) the Lean driver is run on cases.txt and diffed with impl.out
+"""Per-property configuration of ./check: one JSON file per claimed property in tools/props.d/.
+   thm       Lean module holding the property theorems (PROPERTY THEOREMS ONLY)
+   stages    harness binaries to run; each writes cases.txt / impl.out / oracle.jsonl / stats.json
+             and (when `driver` is set) the Lean driver is run on cases.txt and diffed with impl.out
+             keys: name, bin, driver, quick{...}, thorough{...} (passed to the binary as --k v), timeout
+   witness   optional {driver, input}: executable twin of the theorems, run when a proof breaks;
+             every output line starting with "WITNESS " is a concrete failing input
+   rule, trusted, assumptions   copied into the evidence file
+   manifest  {engine, design_ref, technique, text, note} -> MANIFEST.json
 """
-TRUST_COMMON = [
-    "translator (syn parse of /repo source -> tables) and tools/gen_lean.py",
-    "correspondence harness (seeded generators, canonicaliser, scripted doubles)",
-]
+import glob, json, os
 
-PROPS = {
-    "C13": {
-        "thm": "Fbr.Thm.C13",
-        "stages": [
-            {"name": "abi", "bin": "abi_probe", "driver": "drv_abi",
-             "quick": {"n": 3000}, "thorough": {"n": 300000}},
-        ],
-        "witness": {"driver": "drv_abi", "input": "op=witness\n"},
-        "rule": "every #[repr(C)] struct and pub const of the ABI files (complete), opcode numbers 0..300 + "
-                "powers of two + random, random stat/attr/setattr/statvfs/entry values biased to field "
-                "boundaries; non-trivial+distinct = distinct output lines",
-        "trusted": TRUST_COMMON + [
-            "gcc's sizeof/offsetof on /usr/include/linux/fuse.h (7.38) as the kernel's definition",
-            "Fbr.AbiSpec pairing tables (hand-written specification)",
-        ],
-        "assumptions": ["x86_64 libc::stat64 field widths", "installed fuse.h is the reference ABI"],
-    },
-}
+PROPS = {}
+for f in sorted(glob.glob(os.path.join(os.path.dirname(os.path.abspath(__file__)), "props.d", "C*.json"))):
+    PROPS[os.path.basename(f)[:-5]] = json.load(open(f))
